@@ -33,6 +33,11 @@ def gen_case(rng, tier, avoid):
     for op in spec.ops:
         if op.get('op') == 'add' and op['kind'] == 'channel' and rng.random() < 0.2:
             op['kwargs']['cast_dtype'] = gen.cast_literal(rng, gen.pick(rng, SAFE_CASTS[op['kwargs']['data']['$arr']['dtype'][1:]]))
+    if rng.random() < 0.25 and 'ghost_object' not in avoid:
+        # a rejected add_channel(data=...) somewhere in the build: the caller carries on; its array belongs to no channel and
+        # must not make the data sources differ
+        from . import c20
+        spec.ops.insert(rng.randint(3, len(spec.ops)), c20.bad_channel_with_data(rng, lfi, 0))
     a = rng.randint(0, rows - 1)
     b = rng.randint(a + 1, rows)
     if 'fastpath_window' in avoid:
@@ -86,6 +91,8 @@ def check_case(case, ex):
         return (st['out'], st.get('file') if st['out'] == 'ok' else None, st)
 
     o_ref, F_ref, st_ref = write(hist)
+    if any(op.get('bad') for op in hist):
+        C.bump(stats['probes'], 'rejected_add_channel_with_data_in_history')
     if o_ref != 'ok':
         C.bump(stats['probes'], 'valid_spec_rejected' if C.rejected_for_size(st_ref) else 'reference_write_failed')
         return {'violations': out, 'stats': stats}
